@@ -258,6 +258,16 @@ def r_dot(ctx, rule='R-BQ-DOT'):
               'dot_product_binary_quantized is not the signed sum of popcount(!(u^v)) - zerocount(!(u^v))')
     # cosine form
     ty = 'distance::binary_quantized_cosine::BinaryQuantizedCosine'
+    nn = F.fns.get('<%s as distance::Distance>::norm_no_header' % ty)
+    if ctx.need(nn is not None, rule, 'BinaryQuantizedCosine::norm_no_header'):
+        rs = [strip(t) for b, k, t in paths.ret_assigns(nn)]
+        okn = False
+        if len(rs) == 1 and rs[0][0] == 'call' and rs[0][1].endswith('f32>::sqrt') and rs[0][2]:
+            d0 = strip(rs[0][2][0])
+            okn = d0[0] == 'call' and d0[1] == 'spaces::simple::dot_product_binary_quantized' and len(d0[2]) == 2 and \
+                strip_all(d0[2][0]) == strip_all(d0[2][1]) and strip(d0[2][0])[0] == 'arg'
+        ctx.check(okn, rule, 'BinaryQuantizedCosine/norm', nn.loc(), 'norm = sqrt(v . v) over the stored words',
+                  'BinaryQuantizedCosine::norm_no_header is not sqrt(dot(v, v)): the header norm (and every cosine distance) is off for dimensions whose padded length is not what the shortcut assumes')
     bd = F.fns.get('<%s as distance::Distance>::built_distance' % ty)
     if ctx.need(bd is not None, rule, 'BinaryQuantizedCosine::built_distance'):
         rets = paths.ret_assigns(bd)
